@@ -19,7 +19,7 @@ RULE = ("E1: complete small groups - 8 prime-order curves over primes <= 61 (a =
         "('muladd', curve, i) every pair x scalars {0,1,2,n-1,n,n+1}^2; ('affine', curve, i) the affine Point class likewise. ('inv', p) inverse_mod "
         "for every a mod every prime <= 257; ('sqrt', p) square_root_mod_prime for every residue / non-residue mod every prime <= 307. Standard "
         "curves ('std', curve, scalar class): k*G vs OpenSSL and vs the textbook reference for k in {0,1,2,n-1,n,n+1,2^k,2^k-1,seed up to 2n}, k*P "
-        "on a non-generator, ('ecdh', curve, i) both directions equal and equal OpenSSL pkeyutl -derive, incl. peers found by deterministic search whose shared x or own coordinates have leading zero bytes; ('invalid', curve, kind) off-curve, "
+        "on a non-generator, ('ecdh', curve, i) both directions equal and equal OpenSSL pkeyutl -derive, incl. peers found by deterministic search whose shared x or own coordinates have leading zero bytes; ('ecdhseq', pair, ops) every operation sequence of length <= 4 (5) on ONE ECDH object over {set curve X/Y, load / assign private key X/Y, load / assign public key X/Y} followed by key agreement: a secret exactly when object curve, private and public key agree; ('invalid', curve, kind) off-curve, "
         "out-of-range, infinity and foreign-curve points must be rejected by every loader. Distinct = case tuples; group operations counted in 'measured'.")
 ASSUMPTIONS = [
     "textbook affine group law (vf/ref/ec.py) is the oracle for small groups; OpenSSL 3 CLI is the oracle for the 17 standard curves",
@@ -123,6 +123,13 @@ def cases(ctx):
         yield ("inv", p)
     for p in [q for q in range(3, 308) if all(q % d for d in range(2, int(q ** 0.5) + 1))]:
         yield ("sqrt", p)
+    # histories on ONE ECDH object: the curve is switched and keys of two curves of equal size are loaded in every order;
+    # key agreement must succeed exactly when private key, object curve and public key agree at the time of use
+    from itertools import product as _product
+    for pair in (("NIST256p", "SECP256k1"), ("BRAINPOOLP256r1", "NIST256p"), ("NIST192p", "BRAINPOOLP192r1")):
+        for n in range(1, 5 if ctx.quick else 6):
+            for seq in _product(range(len(ECDH_OPS)), repeat=n):
+                yield ("ecdhseq", pair) + seq + (len(ECDH_OPS),)
     for ci in range(len(STD)):
         for si in range(len(std_scalars(ctx, STD[ci]))):
             yield ("std", ci, si)
@@ -132,6 +139,81 @@ def cases(ctx):
             yield ("ecdh", ci, cls)
         for kind in INVALID:
             yield ("invalid", ci, kind)
+
+
+ECDH_OPS = ["setX", "setY", "privX", "privY", "pubX", "pubY", "assign-privY", "assign-pubY"]   # index len(ECDH_OPS) = generate
+
+
+def ecdh_history(ctx, o, pair, seq):
+    X = next(c for c in STD if c.name == pair[0])
+    Y = next(c for c in STD if c.name == pair[1])
+    d = {"X": 1 + ctx.symint("c17-hx", int(X.order) - 1), "Y": 1 + ctx.symint("c17-hy", int(Y.order) - 1),
+         "PX": 1 + ctx.symint("c17-hpx", int(X.order) - 1), "PY": 1 + ctx.symint("c17-hpy", int(Y.order) - 1)}
+    sk = {"X": SigningKey.from_secret_exponent(d["X"], curve=X), "Y": SigningKey.from_secret_exponent(d["Y"], curve=Y)}
+    vk = {"X": SigningKey.from_secret_exponent(d["PX"], curve=X).verifying_key,
+          "Y": SigningKey.from_secret_exponent(d["PY"], curve=Y).verifying_key}
+    cur = {"X": X, "Y": Y}
+    e = ECDH()
+    m = {"curve": None, "priv": None, "pub": None}      # reference state of the object
+    for step, oi in enumerate(seq):
+        if oi == len(ECDH_OPS):
+            ok = m["priv"] is not None and m["pub"] is not None and m["curve"] == m["priv"] == m["pub"]
+            try:
+                got = e.generate_sharedsecret_bytes()
+            except Exception as ex:
+                got = ex
+            if ok:
+                cv = ref_curve(cur[m["curve"]])
+                exp = cv.mul(d[m["priv"]] * d["P" + m["pub"]] % cv.n, cv.g)[0].to_bytes(cur[m["curve"]].verifying_key_length // 2, "big")
+                if isinstance(got, Exception) or got != exp:
+                    o.cls = "differs"
+                    return o.viol("ecdh|history-wrong-secret", "ECDH object after %r: expected the shared secret, got %r" % ([ECDH_OPS[x] for x in seq[:step]], got))
+            elif not isinstance(got, Exception):
+                o.cls = "mixed-curves-accepted"
+                return o.viol("ecdh|history-mixed-curves", "ECDH object after %r (object curve %s, private key on %s, public key on %s) produced a secret instead of refusing" % (
+                    [ECDH_OPS[x] for x in seq[:step]], m["curve"], m["priv"], m["pub"]))
+            continue
+        op = ECDH_OPS[oi]
+        which = op[-1]
+        try:
+            if op.startswith("set"):
+                e.set_curve(cur[which])
+                m["curve"] = which
+            elif op.startswith("assign-priv"):
+                e.private_key = sk[which]
+                m["priv"] = which
+            elif op.startswith("assign-pub"):
+                e.public_key = vk[which]
+                m["pub"] = which
+            elif op.startswith("priv"):
+                if m["curve"] is None:
+                    m["curve"] = which
+                accept = m["curve"] == which
+                try:
+                    e.load_private_key(sk[which])
+                    loaded = True
+                except Exception:
+                    loaded = False
+                if loaded != accept:
+                    return o.viol("ecdh|history-load-private", "load_private_key of a %s key into an object on %s: %s" % (which, m["curve"], "accepted" if loaded else "refused"))
+                if accept:
+                    m["priv"] = which
+            else:
+                if m["curve"] is None:
+                    m["curve"] = which
+                accept = m["curve"] == which
+                try:
+                    e.load_received_public_key(vk[which])
+                    loaded = True
+                except Exception:
+                    loaded = False
+                if loaded != accept:
+                    return o.viol("ecdh|history-load-public", "load_received_public_key of a %s key into an object on %s: %s" % (which, m["curve"], "accepted" if loaded else "refused"))
+                if accept:
+                    m["pub"] = which
+        except Exception as ex:
+            return o.viol("ecdh|history-op-raised", "operation %s raised %r" % (op, ex))
+    return o
 
 
 Z_SCALINGS = lambda p: [1, 2, 3, p - 1]
@@ -267,6 +349,8 @@ def run_case(ctx, case):
                 return o.viol("affine|double-neg", "%s: affine double / negation of %r wrong" % (name, P))
             o.extra = {"group_operations": ops}
             return o
+    if kind == "ecdhseq":
+        return ecdh_history(ctx, o, case[1], case[2:])
     if kind == "inv":
         p = case[1]
         for a in range(1, p):
